@@ -115,7 +115,7 @@ def check(prog, res, tier):
 
     def chk_d(p, mode):
         if p.outcome != 'return':
-            return [definite('constructing the library error raises')]
+            return [definite('constructing the library error raises')] if p.outcome == 'raise' else []
         exc = p.value
         fails = []
         rn = exc.fields.get('record_number')
